@@ -337,6 +337,21 @@ def check_body(ops, res, c):
             viol.append(("advance-raised", {"exc": exc_desc(e)}))
             break
         if not t.is_computed():
+            # ... however the generator is advanced: by the helpers and a for loop (which ask it for an iterator) too
+            from asynq.generator import list_of_generator as _log, take_first as _tf
+
+            for how_, adv in (("take_first(gen, 1)", lambda: _tf(g, 1)), ("list_of_generator(gen)", lambda: _log(g)), ("for task in gen", lambda: [x for x in g])):
+                if steps % 3 != ("take_first(gen, 1)", "list_of_generator(gen)", "for task in gen").index(how_):
+                    continue
+                try:
+                    r_ = adv()
+                    viol.append(("advance-before-previous-task-computed-did-not-raise", {"advanced_through": how_, "got": repr(r_)[:80]}))
+                except RuntimeError:
+                    c["guard_checks_through_helpers"] = c.get("guard_checks_through_helpers", 0) + 1
+                except BaseException as e:
+                    viol.append(("advance-before-previous-task-computed-did-not-raise", {"advanced_through": how_, "raised_instead": exc_desc(e)}))
+            if viol:
+                break
             for attempt in range(3):
                 try:
                     t2 = next(g)
